@@ -129,8 +129,10 @@ def handler(payload):
                 "rot_meta": rm[1].hex() if rm[0] == "ok" else err(rm), "dck": key_j(d.dck_pub), "rot": key_j(d.rot_pub),
                 "sig": (d.signature or b"").hex()}
 
-    def make_dc(c):
-        """-> (result dict, dc object or None, exported bytes or None)"""
+    def make_dc(c, cfg=None):
+        """-> (result dict, dc object or None, exported bytes or None); cfg: a ready configuration dict to (re)use"""
+        if cfg is not None:
+            return make_dc_cfg(c, cfg)
         cfg = {"uuid": c["uuid"], "cc_socu": c["socu"], "cc_vu": c["vu"], "cc_beacon": c["beacon"],
                "rot_meta": [os.path.join(K, k + ".pub") for k in c["keys"]], "rot_id": c["rot_id"],
                "rotk": os.path.join(K, c["rotk"] + ".pem"), "dck": os.path.join(K, c["dck"] + ".pub")}
@@ -142,6 +144,9 @@ def handler(payload):
             cfg["socc"] = c["socc"]
         if "flag_ca" in c:
             cfg["flag_ca"] = bool(c["flag_ca"])
+        return make_dc_cfg(c, cfg)
+
+    def make_dc_cfg(c, cfg):
         out = {}
         v2 = bool(c.get("v2"))
         if v2:
@@ -212,6 +217,47 @@ def handler(payload):
                     r = guarded(one, seconds=30)
                     out["responses"].append(r[1] if r[0] == "ok" else err(r))
             results.append(out)
+        elif op == "rotation":
+            # process-level history: the key FILES named by one configuration are rewritten with other keys between creations
+            import shutil
+            rd = os.path.join(payload["tmpdir"], "rot_%d_%d" % (os.getpid(), len(results)))
+            os.makedirs(rd, exist_ok=True)
+            n = len(c["sets"][0]["keys"])
+            paths = {"keys": [os.path.join(rd, "rot%d.pub" % i) for i in range(n)], "rotk": os.path.join(rd, "rotk.pem"),
+                     "dck": os.path.join(rd, "dck.pub")}
+
+            def install(st):
+                for pth, kid in zip(paths["keys"], st["keys"]):
+                    shutil.copyfile(os.path.join(K, kid + ".pub"), pth)
+                shutil.copyfile(os.path.join(K, st["rotk"] + ".pem"), paths["rotk"])
+                shutil.copyfile(os.path.join(K, st["dck"] + ".pub"), paths["dck"])
+                snap = {}
+                for pth in paths["keys"] + [paths["dck"]]:
+                    snap[os.path.basename(pth)] = open(pth).read()
+                return snap
+
+            def config():
+                cfg = {"family": c["family"], "revision": c.get("revision", "latest"), "uuid": c["uuid"], "cc_socu": c["socu"],
+                       "cc_vu": c["vu"], "cc_beacon": c["beacon"], "rot_meta": list(paths["keys"]), "rot_id": c["rot_id"],
+                       "rotk": paths["rotk"], "dck": paths["dck"]}
+                if "flag_ca" in c:
+                    cfg["flag_ca"] = bool(c["flag_ca"])
+                return cfg
+            steps = []
+            shared = config()
+            snap = install(c["sets"][0])
+            steps.append({"op": "write key set 0 to the files; create_from_yaml_config(cfg); sign(); export()", "set": 0, "files": snap,
+                          "out": make_dc(c, shared)[0]})
+            snap = install(c["sets"][1])
+            steps.append({"op": "rewrite the SAME files with key set 1; create_from_yaml_config(the same cfg dict); sign(); export()",
+                          "set": 1, "files": snap, "out": make_dc(c, shared)[0]})
+            steps.append({"op": "create_from_yaml_config(a freshly built cfg dict with the same paths); sign(); export()",
+                          "set": 1, "files": snap, "out": make_dc(c, config())[0]})
+            snap = install(c["sets"][0])
+            steps.append({"op": "rewrite the files with key set 0 again; create_from_yaml_config(fresh cfg); sign(); export()",
+                          "set": 0, "files": snap, "out": make_dc(c, config())[0]})
+            shutil.rmtree(rd, ignore_errors=True)
+            results.append({"rotation": steps})
         elif op == "history":
             # operation sequences on ONE object: export twice, re-sign + export, change public members + export;
             # `c` is the first configuration, c["changed"] the configuration a fresh object is built from for comparison
